@@ -4,6 +4,7 @@ import RedoModel.Lemmas.Deps
 import RedoModel.Lemmas.DepsSoundSpec
 import RedoModel.Lemmas.DepsSound41
 import RedoModel.Props.C01b
+import RedoModel.Props.C01c
 /-!
 # C01 — No stale target after a successful redo-ifchange
 Property theorems only.
